@@ -24,6 +24,7 @@ type control struct {
 	in           []byte
 	arg          int
 	class, value string
+	show         func() string // renders what the library returned at the FIRST evaluation (re-read after later calls)
 }
 
 var controls = map[string]*control{}
@@ -47,8 +48,31 @@ func evalCall(t *target, b []byte, arg int) (class, value string) {
 }
 
 func (c *control) ask(t *target) (ok bool, got string) {
+	if c.show != nil {
+		var v string
+		if p := hx.Try(func() { v = c.show() }); p != "" || v != c.value {
+			c.show = nil
+			return false, "ok, but the value returned at first reads differently now: storage shared between calls"
+		}
+	}
 	cl, v := evalCall(t, hx.Exact(c.in), c.arg)
 	return cl == c.class && v == c.value, cl
+}
+
+// newControl evaluates the control input once more and keeps the rendering closure of THAT evaluation.
+func newControl(t *target, raw []byte, arg int, class, value string) *control {
+	c := &control{in: hx.Exact(raw), arg: arg, class: class, value: value}
+	var show func() string
+	var cl, v string
+	if p := hx.Try(func() {
+		cl, show = t.call(hx.Exact(raw), arg)
+		if show != nil {
+			v = show()
+		}
+	}); p == "" && cl == class && v == value {
+		c.show = show
+	}
+	return c
 }
 
 // hygOne: raw is the input of the call that has just been answered with (class, value).
@@ -86,7 +110,7 @@ func hygOne(t *target, raw []byte, arg int, class, value string) (string, string
 	ctl := controls[t.name]
 	if ctl == nil {
 		if class == "ok" {
-			controls[t.name] = &control{hx.Exact(raw), arg, class, value}
+			controls[t.name] = newControl(t, raw, arg, class, value)
 		}
 		return class, value
 	}
